@@ -3,6 +3,8 @@ are hypotheses of the composite theorem, and the parse stage (a theorem: Proofs/
 import Ctrmml.Proofs.PipelineValidate
 import Ctrmml.Proofs.PipelineParse
 import Ctrmml.Proofs.PipelineNoEnd
+import Ctrmml.Proofs.PipelineOpt
+import Ctrmml.Proofs.PipelineMds
 namespace Ctrmml.Pipeline
 open Ctrmml
 
@@ -59,66 +61,145 @@ theorem parseStage_noEnd (text : List Nat) (st : Mml.MmlState) (h : parseStage t
     have : (TrackBuilder.BEvent.toEvent be).kind = Kind.fin := by simpa using hk
     exact this
 
-/-! ### the stages that are hypotheses -/
+/-! ### the optimise stage: a theorem on `OptDomain` -/
 
-/-- the converter model's undefined-behaviour / endless-loop constructors -/
-def ferrIsUB : MdsFile.FErr → Bool
-  | .codec _ | .headerWrap | .bankIndex | .riff _ => true
-  | .writer .fuel | .writer (.player .fuel) | .writer (.player .impossible) => true
-  | _ => false
+/-- the parsed song of the text (if it parses) satisfies the side conditions of the optimise stage -/
+def OptInDomain (text : List Nat) : Prop := ∀ st, parseStage text = .ok st → OptDomain (songOf st)
 
-/-- the mds export never ends in one of them -/
-def MdsNoUB : Prop :=
-  ∀ inp : MdsFile.Input, match MdsFile.exportMds MdsData.Arith.float inp with
-    | .error e => ferrIsUB e = false
-    | .ok _ => True
+/-- the same as a check -/
+def inOptDomainB (text : List Nat) : Bool :=
+  match parseStage text with
+  | .ok st => decide (OptDomain (songOf st))
+  | _ => true
 
-/-- what the composition assumes about the stages that are not (yet) under a theorem -/
-structure StageHyps (u : Residual) (opt : Bool) (fmt : Format) : Prop where
-  /-- the optimiser ends (enough passes) without indexing outside a stack list -/
-  optimize : opt = true → ∀ song, ∃ S P, ∀ steps passes, steps ≥ S → passes ≥ P → (optimizeStage song steps passes).routed
-  /-- only the mds export (formats `mds` and `link`) runs the converter -/
-  mdsNoUB : fmt ≠ .vgm → MdsNoUB
-  vgmPlay : ∀ inp d, (u.vgmPlay inp d).routed
-  link : ∀ b, (u.link b).routed
-  mdsGap : ∀ inp, (u.mdsGap inp).routed
+theorem optInDomain_of_check (text : List Nat) (h : inOptDomainB text = true) : OptInDomain text := by
+  intro st hst
+  unfold inOptDomainB at h
+  rw [hst] at h
+  exact of_decide_eq_true h
 
-theorem ferrOut_routed {α : Type} (inp : MdsFile.Input) (gap : MdsFile.Input → Out α) (hg : ∀ i, (gap i).routed)
-    (e : MdsFile.FErr) (he : ferrIsUB e = false) : (ferrOut inp gap e).routed := by
-  cases e with
-  | data => simp [ferrOut, Out.routed]
-  | dataUnsupported => exact hg inp
-  | writer w =>
-    cases w with
-    | player p => cases p <;> first | (exact absurd he (by decide)) | (simp only [ferrOut, Out.routed]; exact playerMsg_ne_empty _)
-    | fuel => simp [ferrIsUB] at he
-    | _ => simp [ferrOut, Out.routed]
-  | codec c => simp [ferrIsUB] at he
-  | indexRange => simp [ferrOut, Out.routed]
-  | headerWrap => simp [ferrIsUB] at he
-  | seqTooLarge => simp [ferrOut, Out.routed]
-  | bankIndex => simp [ferrIsUB] at he
-  | riff r => simp [ferrIsUB] at he
+/-! ### the errors of the converter model -/
 
-theorem exportMdsStage_routed (u : Residual) {opt : Bool} {fmt : Format} (hu : StageHyps u opt fmt) (hf : fmt ≠ .vgm)
-    (inp : MdsFile.Input) (gap : Bool) : (exportMdsStage u inp gap).routed := by
-  unfold exportMdsStage
-  split
-  · exact hu.mdsGap inp
-  · have h := hu.mdsNoUB hf inp
-    split
-    · trivial
-    · rename_i e he
-      rw [he] at h
-      exact ferrOut_routed inp u.mdsGap hu.mdsGap e h
+/-- the errors of `read_song` -/
+def dataErr : MdsFile.FErr → Prop
+  | .data | .dataUnsupported => True
+  | _ => False
 
-theorem exportVgmStage_routed (u : Residual) {opt : Bool} {fmt : Format} (hu : StageHyps u opt fmt) (inp : MdsFile.Input) :
-    (exportVgmStage u inp).routed := by
-  unfold exportVgmStage
-  split
-  · exact hu.vgmPlay _ _
-  · simp [Out.routed]
-  · exact hu.mdsGap inp
+theorem liftData_err {r : Except MdsData.Err MdsData.State} {e : MdsFile.FErr} (h : MdsFile.liftData r = .error e) : dataErr e := by
+  unfold MdsFile.liftData at h
+  split at h
+  · cases h
+  · cases h; trivial
+  · cases h; trivial
 
+theorem map_err {α β : Type} {r : Except MdsFile.FErr α} {f : α → β} {e : MdsFile.FErr} (h : r.map f = .error e) : r = .error e := by
+  cases r with
+  | error x => simpa [Except.map] using h
+  | ok a => simp [Except.map] at h
+
+theorem addInsPcm_err {files : List (String × Bytes)} {d : MdsFile.DState} {id : Nat} {tag : List String} {e : MdsFile.FErr}
+    (h : MdsFile.addInsPcm files d id tag = .error e) : dataErr e := by
+  unfold MdsFile.addInsPcm at h
+  simp only at h
+  repeat' split at h
+  all_goals first | (cases h; trivial) | cases h
+
+theorem readTags_err (files : List (String × Bytes)) :
+    ∀ (tags : List (String × List String)) (d : MdsFile.DState) (e : MdsFile.FErr),
+      MdsFile.readTags MdsData.Arith.float files d tags = .error e → dataErr e := by
+  intro tags
+  induction tags with
+  | nil => intro d e h; cases h
+  | cons kv rest ih =>
+    intro d e h
+    obtain ⟨key, tag⟩ := kv
+    unfold MdsFile.readTags at h
+    split at h
+    · exact ih d e h
+    · simp only at h
+      split at h
+      · rename_i x hx
+        cases h
+        split at hx
+        · exact liftData_err (map_err hx)
+        · split at hx
+          · split at hx
+            · exact addInsPcm_err hx
+            · exact liftData_err (map_err hx)
+          · exact liftData_err (map_err hx)
+      · exact ih _ e h
+
+theorem addEntries_err (nS nM : Nat) (bank : List (List Nat)) :
+    ∀ (l : List (Nat × Nat)) (dblk : Riff.Riff) (e : MdsFile.FErr), Riff.isList dblk.type = true →
+      MdsFile.addEntries nS nM bank dblk l = .error e → e = .bankIndex := by
+  intro l
+  induction l with
+  | nil => intro dblk e _ h; cases h
+  | cons p rest ih =>
+    intro dblk e hl h
+    obtain ⟨mapped, envId⟩ := p
+    unfold MdsFile.addEntries at h
+    split at h
+    · cases h; rfl
+    · rename_i dat _
+      obtain ⟨r', hr, ht⟩ := addChunk_list hl
+        (Riff.mk2 (if mapped < Tables.mdsFile_pcmTag then Tables.mdsFile_glob else Tables.mdsFile_pcmh)
+          (le32 (MdsFile.entryId nS nM mapped envId) ++ MdsFile.toU8 dat))
+      simp only [hr] at h
+      exact ih r' e (by rw [ht]; exact hl) h
+
+theorem getMds_err {b : MdsFile.Built} {bank : List (List Nat)} {group pcm : Bytes} {e : MdsFile.FErr}
+    (h : MdsFile.getMds b bank group pcm = .error e) : e = .bankIndex := by
+  unfold MdsFile.getMds at h
+  obtain ⟨r1, h1, t1⟩ := addChunk_list (r := Riff.mk3 Riff.TYPE_RIFF Tables.mdsFile_MDS0) isList_riff
+    (Riff.mk2 Tables.mdsFile_ver (MdsFile.toU8 [Tables.MDSDRV_SEQ_VERSION_MAJOR, Tables.MDSDRV_SEQ_VERSION_MINOR]))
+  have l1 : Riff.isList r1.type = true := by rw [t1]; exact isList_riff
+  obtain ⟨r2, h2, t2⟩ := addChunk_list l1 (Riff.mk2 Tables.mdsFile_grp group)
+  have l2 : Riff.isList r2.type = true := by rw [t2]; exact l1
+  obtain ⟨r3, h3, t3⟩ := addChunk_list l2 (Riff.mk2 Tables.mdsFile_seq (MdsFile.toU8 b.seq))
+  have l3 : Riff.isList r3.type = true := by rw [t3]; exact l2
+  simp only [h1, h2, h3, MdsFile.liftRiff, bind, Except.bind] at h
+  cases hd : MdsFile.addEntries b.conv.subList.length b.conv.macroList.length bank (Riff.mk3 Riff.TYPE_LIST Tables.mdsFile_dblk)
+      (MdsFile.usedSorted b.conv) with
+  | error x =>
+    rw [hd] at h
+    simp only at h
+    injection h with h
+    rw [← h]
+    exact addEntries_err _ _ _ _ _ _ isList_list hd
+  | ok dblk =>
+    rw [hd] at h
+    simp only at h
+    obtain ⟨r4, h4, t4⟩ := addChunk_list l3 dblk
+    have l4 : Riff.isList r4.type = true := by rw [t4]; exact l3
+    obtain ⟨r5, h5, _⟩ := addChunk_list l4 (Riff.mk2 Tables.mdsFile_pcmd pcm)
+    simp only [h4, h5, pure, Except.pure] at h
+    cases h
+
+theorem exportMds_err (inp : MdsFile.Input) (e : MdsFile.FErr) (h : MdsFile.exportMds MdsData.Arith.float inp = .error e) :
+    (∀ r, e ≠ .riff r) ∧ e ≠ .codec .atEmpty := by
+  unfold MdsFile.exportMds at h
+  split at h
+  · rename_i e' he
+    cases h
+    have := readTags_err _ _ _ _ he
+    exact ⟨fun r hr => (by rw [hr] at this; exact this), fun hr => (by rw [hr] at this; exact this)⟩
+  · split at h
+    · rename_i e' he
+      cases h
+      unfold MdsFile.construct at he
+      split at he
+      · cases he
+        exact ⟨fun r hr => (by cases hr), fun hr => (by cases hr)⟩
+      · have := assemble_err _ _ _ _ he
+        refine ⟨fun r hr => ?_, fun hr => ?_⟩
+        · rw [hr] at this; exact this
+        · rw [hr] at this; exact this
+    · split at h
+      · rename_i e' he
+        cases h
+        rw [getMds_err he]
+        exact ⟨fun r hr => (by cases hr), fun hr => (by cases hr)⟩
+      · cases h
 
 end Ctrmml.Pipeline
